@@ -125,6 +125,33 @@ Theorem C09_trusted_exactly_its_component : forall parse_uri parse_ip parse_cidr
 Proof. exact handle_trusted_frame. Qed.
 Print Assumptions C09_trusted_exactly_its_component.
 
+(** histories: one instance of a service serves a sequence of requests.  What the i-th request gets is what it
+    would get alone - nothing an earlier request (of a listed peer, of a peer whose address is written with the
+    same leading text, ...) did can change it *)
+Theorem C09_history_pointwise : forall parse_uri parse_ip parse_cidr split_host_port m cfg reqs i r raw,
+  nth_error reqs i = Some (r, raw) ->
+  nth_error (run_instance parse_uri parse_ip parse_cidr split_host_port true m cfg reqs) i =
+    Some (handle parse_uri parse_ip parse_cidr split_host_port true m cfg r raw).
+Proof. exact history_pointwise. Qed.
+Print Assumptions C09_history_pointwise.
+
+(** ... so after ANY history a request of a peer that is not listed is served from the connection and the
+    request line alone *)
+Theorem C09_history_untrusted : forall parse_uri parse_ip parse_cidr split_host_port,
+  net_ok parse_ip parse_cidr split_host_port ->
+  forall m cfg reqs i r raw,
+    nth_error reqs i = Some (r, raw) ->
+    ~ listed_cfg parse_ip parse_cidr split_host_port m cfg (r_remote r) ->
+    nth_error (run_instance parse_uri parse_ip parse_cidr split_host_port true m cfg reqs) i =
+      Some {| s_view := {| v_method := r_method r; v_scheme := if r_tls r then "https" else "http"; v_host := r_host r;
+                           v_rawpath := r_escpath r; v_query := r_rawquery r;
+                           v_ips := [peer_host split_host_port (r_remote r)];
+                           v_hdrs := parse_headers (not_forwarded_raw raw) |};
+              s_up_hdrs := (parse_headers (not_forwarded_raw raw) ++ [(FWD, fresh_forwarded split_host_port r)])%list;
+              s_up_method := r_method r |}.
+Proof. exact history_untrusted. Qed.
+Print Assumptions C09_history_untrusted.
+
 (** whoever the peer is: at the upstream the seven names carry what heimdall composed from the request
     the middleware left, and nothing else; X-Forwarded-Method/-Uri/-Path never arrive *)
 Theorem C09_upstream_forwarding_is_composed : forall c h k,
